@@ -200,6 +200,29 @@ def below_static_pass(ctx):
                 problem = f'the call raised {type(e).__name__}'
             if not problem and d.hello(5) != 5:
                 problem = 'the inherited static method is gone'
+            if not problem:
+                # the declaration of the live operation grows (what a loader does: the operation first, its parameters later)
+                op_ = D.eOperations[0]
+                op_.eParameters.insert(nreq, E.EParameter('late', E.EInt, required=True))
+                for o_, when in ((d, 'created before'), (D(), 'created after')):
+                    try:
+                        o_.run(*([1] * (nreq + 1)))
+                        problem = f'after a required parameter was added, the call with it did not raise NotImplementedError ({when})'
+                    except NotImplementedError:
+                        pass
+                    except Exception as e:
+                        problem = f'after a required parameter was added, the call with it raised {type(e).__name__} ({when})'
+                    if problem:
+                        break
+                    try:
+                        o_.run(*([1] * nreq))
+                        problem = f'after a required parameter was added, the call without it was accepted ({when})'
+                    except TypeError:
+                        pass
+                    except NotImplementedError:
+                        problem = f'after a required parameter was added, the call without it reached the method ({when})'
+                    if problem:
+                        break
         if problem:
             ctx.violate({'clause': 'method-presence', 'below_static': True},
                         f'method-presence: dynamic class D with a static supertype ({how}), operation run added: {problem}',
